@@ -1,6 +1,7 @@
 package props
 
 import (
+	"context"
 	"encoding/json"
 	"fmt"
 	"os"
@@ -222,3 +223,11 @@ type statsRPCTagInfo = stats.RPCTagInfo
 type statsRPCStats = stats.RPCStats
 type statsConnTagInfo = stats.ConnTagInfo
 type statsConnStats = stats.ConnStats
+
+func metadataFromIncoming(ctx context.Context) (metadata.MD, bool) {
+	return metadata.FromIncomingContext(ctx)
+}
+
+func metadataOutgoing(ctx context.Context, kv ...string) context.Context {
+	return metadata.AppendToOutgoingContext(ctx, kv...)
+}
